@@ -116,6 +116,7 @@ type ClientConfig struct {
 // keepLocalAddresses is a flag to enable sending local network addresses (for testing purposes)
 // max is the maximum number of snowflakes the client should gather for each SOCKS connection
 func NewSnowflakeClient(config ClientConfig) (*Transport, error) {
+	vhook("newclient.config", config)
 
 	log.Println("\n\n\n --- Starting Snowflake Client ---")
 
